@@ -463,3 +463,91 @@ class ApiBins(_ReaderBase):
         else:
             out["only-the-chromosome-column-replaced"] = result is t and t.stores == [("chrom", cat)]
         return out
+
+
+# ------------------------------------------------------------------ annotate (C14, C12)
+from pyvc.lib_pandas import DataFrameV, SeriesV, offset_index, frame_rows  # noqa: E402
+
+SEL = "cooler.core._selectors"
+
+BIN_COLS = ["chrom", "start", "end", "weight"]
+
+
+@contract
+class Annotate(Contract):
+    """C14: annotate(pixels, bins, replace) attaches to EVERY pixel, in the pixels' own order and under the pixels' own
+    index, the columns of ITS OWN two bins (suffix 1 for the row bin, 2 for the column bin), for a bin table given whole or
+    as any contiguous part - rows labelled first .. first+nb-1 - that contains the needed bins; the pixel columns are kept
+    (the two id columns dropped iff replace), the new columns come first."""
+    target = f"{API}:annotate"
+    props = ["C14", "C12"]
+
+    def configs(self, v):
+        def mk(pcols, replace, whole, selector=False):
+            def f(v):
+                npx, nb = v.Int("npix"), v.Int("nbins_given")
+                first = z3.IntVal(0) if whole else v.Int("first_label")
+                pix = DataFrameV({c: v.Arr("pixels." + c, n=npx) for c in pcols}, v.Arr("pixels.index", n=npx))
+                bins = DataFrameV({c: v.Arr("bins." + c, n=nb) for c in BIN_COLS}, None if whole else offset_index(nb, first))
+                table = DataFrameV(dict(bins.cols), bins.index)
+                if selector:
+                    def slicer(I, fields, lo, hi):
+                        # the slicer of Cooler.bins(): rows [lo, hi) labelled lo.. (contract of _tableops.get); called with
+                        # bounds inside the table (obliged here)
+                        I.path.oblige("pre", f"slicer-bounds#{I.path.ordinal('slicer')}", And(0 <= lo, lo <= hi, hi <= nb))
+                        return frame_rows(I, table, lo, hi)
+                    bins = v.Obj("RangeSelector1D", SEL, fields=None, _slice=LibFunc("bins slicer (get contract)", slicer), _fetch=None,
+                                 _shape=(nb,))
+                return dict(pixels=pix, bins=bins, replace=replace,
+                            __ghost__=dict({"npx": npx, "nb": nb, "first": first, "pix": DataFrameV(dict(pix.cols), pix.index),
+                                            "bins": table, "pcols": pcols, "selector": selector,
+                                            # flat copies for concretisation at replay
+                                            "pcols_csv": ",".join(pcols), "whole": whole, "pixels.index": pix.index},
+                                           **{"pixels." + c: a for c, a in pix.cols.items()},
+                                           **{"bins." + c: a for c, a in table.cols.items()}))
+            return f
+        for pcols, lab in ((["bin1_id", "bin2_id", "count"], "both-ids"), (["bin1_id", "count"], "row-id-only"),
+                           (["count", "bin2_id"], "column-id-only"), (["bin2_id", "bin1_id", "count", "extra"], "ids-swapped+extra")):
+            for replace in (False, True):
+                for whole in (True, False):
+                    yield f"{lab},replace={replace},{'whole-table' if whole else 'contiguous-part'}", mk(pcols, replace, whole)
+                yield f"{lab},replace={replace},bin-selector", mk(pcols, replace, True, True)
+
+    def requires(self, pixels, bins, replace):
+        g = self._v.path.ghost
+        npx, nb, first, pix = g["npx"], g["nb"], g["first"], g["pix"]
+        r = [npx >= 0, nb >= 0, first >= 0]
+        for idc in ("bin1_id", "bin2_id"):
+            if idc in pix.cols:
+                a = pix.cols[idc]
+                # the part given contains the needed bins
+                r.append(forall(0, npx, lambda k, a=a: And(first <= a[k], a[k] < first + nb)))
+        return r
+
+    def ensures(self, result, pixels, bins, replace):
+        g = self._v.path.ghost
+        npx, nb, first, pix, bt, pcols = g["npx"], g["nb"], g["first"], g["pix"], g["bins"], g["pcols"]
+        out = {"is-a-frame": isinstance(result, DataFrameV)}
+        if not out["is-a-frame"]:
+            return out
+        want = []
+        for idc, suf in (("bin1_id", "1"), ("bin2_id", "2")):
+            if idc in pcols:
+                want += [c + suf for c in BIN_COLS]
+        kept = [c for c in pcols if not (replace and c in ("bin1_id", "bin2_id"))]
+        out["columns:annotations-first-then-the-pixel-columns"] = list(result.cols.keys()) == want + kept
+        if list(result.cols.keys()) != want + kept:
+            return out
+        out["one-row-per-pixel"] = And(*[L(a) == npx for a in result.cols.values()])
+        for idc, suf in (("bin1_id", "1"), ("bin2_id", "2")):
+            if idc not in pcols:
+                continue
+            ids = pix.cols[idc]
+            for c in BIN_COLS:
+                out[f"{c}{suf}-is-the-value-of-the-pixels-own-bin"] = forall(
+                    0, npx, lambda k, c=c, suf=suf, ids=ids: result.cols[c + suf][k] == bt.cols[c][ids[k] - first])
+        for c in kept:
+            out[f"pixel-column-{c}-unchanged-in-order"] = forall(0, npx, lambda k, c=c: result.cols[c][k] == pix.cols[c][k])
+        ri = result.index
+        out["pixels-index-kept"] = (ri is not None) and And(L(ri) == npx, forall(0, npx, lambda k: ri[k] == pix.index[k]))
+        return out
